@@ -12,8 +12,8 @@ other operation of the harness language, any number of iterators; model `run siz
   (results and notification trace), like the dictionary that executed the same history;
   `ht_dict_during_iters`: with iterators open, every result except `iter_next`'s is the dictionary's;
 * `ht_iter_never_invented`: what an iterator returns is an entry of the dictionary at that moment.
-STATED, NOT PROVED at history level (evaluated on every sampled history by the python oracle and
-the Lean monitor `IterMon`): `ht_iter_complete` (a key present from iter_new until the end is
+PROVED at history level in `Props/C18Hist.lean` (they were only stated here at first; they are also
+evaluated on every sampled history by the python oracle and the Lean monitor `IterMon`): `ht_iter_complete` (a key present from iter_new until the end is
 returned) and `ht_iter_exactly_once` (… exactly once when nothing was inserted meanwhile):
   let m := IterMon.run .ht ops (run size ops).2;  m.flags.incomplete = false ∧ m.flags.twice = false
 Their per-step content IS proved, for every state satisfying the invariant:
